@@ -21,8 +21,6 @@ func allSlashes(s string) bool { return strings.Trim(s, "/") == "" }
 func inputClass(p *pat, path string, c rcfg) string {
 	norm := normalised(path, c)
 	switch {
-	case c.Unesc && plusInLiteral(p):
-		return plusClass // first: such a pattern fails for this reason whatever else is special about it
 	case allSlashes(norm):
 		return "path-of-slashes-only"
 	case !c.Strict && optionalTailAfterSlashes(p):
@@ -33,6 +31,10 @@ func inputClass(p *pat, path string, c rcfg) string {
 		return "path<3-bytes-after-normalisation,first-literal>=3-bytes"
 	case paramBeforeSlashRun(p, c):
 		return "parameter-followed-by-literal-of-2+-slashes-only"
+	case c.Unesc && plusInLiteral(p):
+		// last: a pattern that also falls into one of the classes above fails for that (known) reason whether or
+		// not the '+' is decoded; the '+' class is for patterns that have nothing else special about them
+		return plusClass
 	}
 	return ""
 }
